@@ -9,6 +9,7 @@ import (
 	"strings"
 
 	"github.com/google/reftable"
+	"github.com/google/reftable/verifvfs/vos"
 	"verif/harness/eng"
 	"verif/harness/gen"
 	"verif/harness/rep"
@@ -333,6 +334,43 @@ func (e *engRunner) randomScenarioX(family string, idx int, seed int64, kinds []
 	e.run(sc, family, idx)
 }
 
+// randomFaultScenario: a random concurrent scenario in which one filesystem operation of
+// one process fails with an injected I/O error.
+func (e *engRunner) randomFaultScenario(family string, idx int, seed int64, kinds []string, every bool) {
+	rng := rand.New(rand.NewSource(gen.Mix(seed^0xfa17, int64(idx))))
+	gcfg := engCfg(rng.Intn(4))
+	rec := engRecipes[rng.Intn(len(engRecipes))]
+	np := 2 + rng.Intn(2)
+	ts := newTxnSource(gen.Mix(seed, int64(idx)+6), gcfg.HashSize())
+	var scripts [][]eng.Call
+	for p := 0; p < np; p++ {
+		nc := 1 + rng.Intn(3)
+		var ds []string
+		for i := 0; i < nc; i++ {
+			ds = append(ds, kinds[rng.Intn(len(kinds))])
+		}
+		s := ts.mkCalls(strings.Join(ds, ","))
+		s = append([]eng.Call{{Kind: "open"}}, s...)
+		scripts = append(scripts, s)
+	}
+	var pol eng.Policy
+	if rng.Intn(4) == 0 {
+		pol = &eng.Uniform{Rng: rng}
+	} else {
+		pol = eng.NewPCT(rng, np, 1+rng.Intn(3), 60*np)
+	}
+	fp := rng.Intn(np)
+	fa := 2 + rng.Intn(70)
+	sc := &eng.Scenario{Name: fmt.Sprintf("random %d processes, I/O error at operation %d of p%d", np, fa, fp), GCfg: gcfg, Init: rec, Scripts: scripts, Policy: pol,
+		CheckDirEvery: every, FaultProc: fp, FaultAt: fa, HookReads: !every && rng.Intn(2) == 0}
+	res := e.run(sc, family, idx)
+	if res.SetupErr == nil && res.Procs[fp].FaultFired != nil {
+		e.c.Rep.Count("io_faults_injected", 1)
+		op := res.Procs[fp].FaultFired
+		e.c.Rep.SetAdd("io_fault_sites", op.Kind+"|"+vos.PathClass(op.Path)+"|"+op.Site+"|in "+op.Call)
+	}
+}
+
 type pairCase struct {
 	cfg     int
 	rec     eng.Recipe
@@ -422,6 +460,13 @@ func RunC04(c *Ctx) {
 	for i := 0; i < n; i++ {
 		if c.Mine(idx) {
 			e.randomScenario("random", idx, c.Seed)
+		}
+		idx++
+	}
+	idx = e.faultPauseFamilies(idx)
+	for i := 0; i < c.N(800, 40000); i++ {
+		if c.Mine(idx) {
+			e.randomFaultScenario("random+io-fault", idx, c.Seed, pctKinds, false)
 		}
 		idx++
 	}
